@@ -34,7 +34,9 @@ def check(ctx):
     _http.fixed_arity_unpacks(ctx, "D-unpack", scope)
     pl = ctx.fn("aio.http.httping", "parseLeader")
     t = src(pl)
-    ok = ("line.partition(':')" in t and ".strip()" in t) or ("split(':', 1)" in t and ".strip()" in t and "':' in line" in t)
+    import re as _re
+    ok = (bool(_re.search(r"\b\w+\.partition\(':'\)", t)) and ".strip()" in t) or \
+        (bool(_re.search(r"\.split\(':', 1\)", t)) and ".strip()" in t and bool(_re.search(r"':' in \w+", t)))
     ctx.check(ok, "T9-colon", pl, "parseLeader: key, sep, value = line.partition(':'); strip both", "header lines with or without whitespace after the colon must parse")
     for fname in ("parseLine", "parseLeader"):
         f, h, ok, why = _http.eol_selection(ctx, fname)
